@@ -1090,15 +1090,20 @@ fn run_plonk<F: VF>(t: &PlonkT<F>, common: &CommonCircuitData<F, 2>) -> ProofCha
     r.expect("get_challenges")
 }
 
+/// grinding bits of the plonk variants (a variant without grinding is run as well: a transcript
+/// that skips the proof-of-work witness "when no grinding is configured" leaves it unbound)
+static PLONK_POW_BITS: core::sync::atomic::AtomicU32 = core::sync::atomic::AtomicU32::new(3);
+
 fn small_common<F: VF>(lookups: bool, num_challenges: usize) -> CommonCircuitData<F, 2> {
     let mut config = CircuitConfig::standard_recursion_config();
     config.num_challenges = num_challenges;
     config.zero_knowledge = false;
-    config.security_bits = 9; // = num_query_rounds * rate_bits + proof_of_work_bits (build() checks it)
+    let pow = PLONK_POW_BITS.load(core::sync::atomic::Ordering::Relaxed);
+    config.security_bits = 6 + pow as usize; // = num_query_rounds * rate_bits + proof_of_work_bits (build() checks it)
     config.fri_config = FriConfig {
         rate_bits: 3,
         cap_height: 1,
-        proof_of_work_bits: 3,
+        proof_of_work_bits: pow,
         reduction_strategy: FriReductionStrategy::Fixed(vec![1, 1]),
         num_query_rounds: 2,
     };
@@ -1303,6 +1308,9 @@ fn plonk_variant<F: VF>(ctx: &mut Ctx, vname: &str, lookups: bool, num_challenge
 fn plonk_obs<F: VF>(ctx: &mut Ctx) {
     plonk_variant::<F>(ctx, "c2", false, 2);
     plonk_variant::<F>(ctx, "c2-lookup", true, 2);
+    PLONK_POW_BITS.store(0, core::sync::atomic::Ordering::Relaxed);
+    plonk_variant::<F>(ctx, "c2-pow0", false, 2);
+    PLONK_POW_BITS.store(3, core::sync::atomic::Ordering::Relaxed);
     if ctx.thorough() {
         plonk_variant::<F>(ctx, "c1", false, 1);
         plonk_variant::<F>(ctx, "c3-lookup", true, 3);
